@@ -162,6 +162,8 @@ def failing_decls(lake_output):
 def theorem_names(module_file):
     """theorems declared in a Properties file, with their namespace prefix"""
     src = open(module_file, encoding="utf-8").read()
+    # block comments (doc comments included) are prose: drop them, keeping the line structure
+    src = re.sub(r"/-.*?-/", lambda m: "\n" * m.group(0).count("\n"), src, flags=re.S)
     ns = []
     names = []
     for line in src.splitlines():
